@@ -161,6 +161,7 @@ func (w *vfWiring) emit(cls, lid string, srcIP string, srcPort int, raw []byte, 
 			add(e.Uri.Host)
 		}
 	}
+	add(w.g.ip("10.0.0.1")) // the listener's own address is a literal too
 	w.tr.Emit(vfM{"ev": "step", "case": w.id, "cls": cls, "pi": 1, "lid": lid, "src": vfM{"ip": srcIP, "port": srcPort}, "inmsg": in, "outs": outs,
 		"pool": []string{}, "rx": vfM{"sip": false, "abs": false}, "tohost": vfChars("z.z"), "resolv": rmap, "panic": "", "stuck": false, "learned_obs": vfM{}})
 }
